@@ -616,7 +616,11 @@ func TestC53(t *testing.T) {
 				t.Fatal(err)
 			}
 			if res.outcome != "panic" {
-				c.Known(fmt.Sprintf("%s %s (%s): %s, outcome on path %s: %s", wtn.id, cs.op.name, res.why, "no panic for an overlapping buffer layout", p.name, res.outcome))
+				pn := p.name
+				if cs.op.kind != ovAEADSeal && cs.op.kind != ovAEADOpen {
+					pn = "n/a"
+				}
+				c.Known(fmt.Sprintf("%s %s (%s): no panic for an overlapping buffer layout, outcome: %s (path %s)", wtn.id, cs.op.name, res.why, res.outcome, pn))
 			}
 		}
 	}
